@@ -5,7 +5,7 @@ unchanged tree does not have is a FALSE ALARM of the checker and is printed. Exi
 import json, os, subprocess, sys, tempfile, glob, concurrent.futures as cf
 ROOT = os.path.dirname(os.path.dirname(os.path.abspath(__file__)))
 ENV = dict(os.environ, GOFLAGS="-mod=mod", GOPROXY="off", GOSUMDB="off", GOTOOLCHAIN="local", GOWORK="off")
-props = sorted(json.load(open(os.path.join(ROOT, "tools", "claims.json")))["claimed"])
+props = os.environ.get("SWEEP_PROPS", "").split() or sorted(json.load(open(os.path.join(ROOT, "tools", "claims.json")))["claimed"])
 
 def run_props(repo, ps):
     ev = tempfile.mkdtemp(prefix="nsweepev.")
